@@ -505,8 +505,12 @@ func (e *EdgeQuery) addResult(r EdgeQueryResult) {
 }
 
 func (e *EdgeQuery) maybeAddResult(shape Shape, shapeID, edgeID int32) {
-	if _, ok := e.testedEdges[ShapeEdgeID{shapeID, edgeID}]; e.avoidDuplicates && !ok {
-		return
+	if e.avoidDuplicates {
+		id := ShapeEdgeID{shapeID, edgeID}
+		if _, ok := e.testedEdges[id]; ok {
+			return
+		}
+		e.testedEdges[id] = 1
 	}
 	edge := shape.Edge(int(edgeID))
 	dist := e.distanceLimit
